@@ -789,6 +789,12 @@ static int handleConfigResponse(KSI_HighAvailabilityService *has, KSI_AsyncServi
 			KSI_Utf8String_free(reqHndl->errMsg);
 			reqHndl->errMsg = NULL;
 		}
+
+		/* A configuration request is completed by the first configuration received: failures of the
+		 * remaining subservices are reported as error notices, not as a second completion. */
+		if (haRequest->hasReq == false) {
+			reqHndl->state = KSI_ASYNC_STATE_PUSH_CONFIG_RECEIVED;
+		}
 	}
 
 	res = KSI_AsyncHandle_getConfig(respHndl, &pushConf);
